@@ -708,6 +708,190 @@ theorem sortRec_spec (dimCells : Nat) (hd : 1 ≤ dimCells)
       exact hp.trans hperm
 
 
+/-! ### the id writes -/
+
+theorem mem_insertByKey {key : Nat → Nat} {x y : Nat} {l : List Nat} :
+    y ∈ insertByKey key x l ↔ y = x ∨ y ∈ l := by
+  induction l with
+  | nil => simp [insertByKey]
+  | cons z zs ih =>
+    simp only [insertByKey]
+    split
+    · simp
+    · simp only [List.mem_cons, ih]
+      constructor
+      · rintro (h | h | h) <;> simp [h]
+      · rintro (h | h | h) <;> simp [h]
+
+/-- The insertion sort used by the driver is an admissible `par_sort_unstable_by_key`
+(`SortSpec` is not vacuous). -/
+theorem sortByKey_spec : SortSpec sortByKey := by
+  intro key l
+  induction l with
+  | nil => simp [sortByKey]
+  | cons x xs ih =>
+    obtain ⟨hp, hs⟩ := ih
+    have hins : ∀ (l : List Nat), l.Pairwise (fun a b => key a ≤ key b) →
+        (insertByKey key x l).Perm (x :: l) ∧ (insertByKey key x l).Pairwise (fun a b => key a ≤ key b) := by
+      intro l
+      induction l with
+      | nil => intro _; simp [insertByKey]
+      | cons z zs ihz =>
+        intro hl
+        rw [List.pairwise_cons] at hl
+        simp only [insertByKey]
+        split
+        · next hxz =>
+          refine ⟨List.Perm.refl _, List.Pairwise.cons ?_ (List.Pairwise.cons hl.1 hl.2)⟩
+          intro y hy
+          rcases List.mem_cons.mp hy with h | h
+          · subst h; exact hxz
+          · have := hl.1 y h; omega
+        · next hxz =>
+          obtain ⟨p1, p2⟩ := ihz hl.2
+          refine ⟨(List.Perm.cons z p1).trans (List.Perm.swap x z zs), List.Pairwise.cons ?_ p2⟩
+          intro y hy
+          rcases mem_insertByKey.mp hy with h | h
+          · subst h; omega
+          · exact hl.1 y h
+    obtain ⟨q1, q2⟩ := hins _ hs
+    exact ⟨q1.trans (List.Perm.cons x hp), q2⟩
+
+theorem writeIds_aux (n k : Nat) : ∀ (l : List Nat) (off : Nat) (acc : List Nat),
+    l.Nodup → (∀ x ∈ l, x < acc.length) →
+    ((l.zipIdx off).foldl (fun acc (x : Nat × Nat) => acc.set x.1 (chunkId n k x.2)) acc).length = acc.length ∧
+    (∀ pos, pos < l.length →
+      ((l.zipIdx off).foldl (fun acc (x : Nat × Nat) => acc.set x.1 (chunkId n k x.2)) acc).getD (l.getD pos 0) 0
+        = chunkId n k (off + pos)) ∧
+    (∀ y, y ∉ l →
+      ((l.zipIdx off).foldl (fun acc (x : Nat × Nat) => acc.set x.1 (chunkId n k x.2)) acc).getD y 0
+        = acc.getD y 0) := by
+  intro l
+  induction l with
+  | nil => intro off acc _ _; simp
+  | cons x xs ih =>
+    intro off acc hnd hlt
+    rw [List.nodup_cons] at hnd
+    simp only [List.zipIdx_cons, List.foldl_cons]
+    have hx : x < acc.length := hlt x (by simp)
+    obtain ⟨h1, h2, h3⟩ := ih (off + 1) (acc.set x (chunkId n k off)) hnd.2
+      (fun y hy => by rw [List.length_set]; exact hlt y (by simp [hy]))
+    refine ⟨by rw [h1, List.length_set], ?_, ?_⟩
+    · intro pos hpos
+      cases pos with
+      | zero =>
+        simp only [List.getD_cons_zero, Nat.add_zero]
+        rw [h3 x hnd.1]
+        simp [List.getD_eq_getElem?_getD, hx]
+      | succ pos =>
+        simp only [List.getD_cons_succ]
+        rw [h2 pos (by simpa using hpos)]
+        congr 1; omega
+    · intro y hy
+      rw [List.mem_cons, not_or] at hy
+      rw [h3 y hy.2]
+      simp only [List.getD_eq_getElem?_getD]
+      rw [List.getElem?_set_ne (fun h => hy.1 h.symm)]
+
+theorem writeIds_length (n k : Nat) (l p0 : List Nat) (hnd : l.Nodup) (hlt : ∀ x ∈ l, x < p0.length) :
+    (writeIds n k l p0).length = p0.length :=
+  (writeIds_aux n k l 0 p0 hnd hlt).1
+
+/-- After the `for_each`, the point at position `pos` of the permutation carries
+`chunkId pos`. -/
+theorem writeIds_get (n k : Nat) (l p0 : List Nat) (hnd : l.Nodup) (hlt : ∀ x ∈ l, x < p0.length)
+    (pos : Nat) (h : pos < l.length) :
+    (writeIds n k l p0).getD (l.getD pos 0) 0 = chunkId n k pos := by
+  have := (writeIds_aux n k l 0 p0 hnd hlt).2.1 pos h
+  simpa [writeIds] using this
+
+
 end ZCurve
+
+/-! ## monotonicity of this `binary_search_by` in the key, on any slice -/
+
+/-- Relation between the loop states of two searches (keys `a ≤ b`) over the same slice:
+same `base`, or `A`'s window ends at most one past `B`'s base, the shared element then
+being `Greater` than `a`. -/
+def PairInv (cmpA : Nat → Ordering) (size bA bB : Nat) : Prop :=
+  bA = bB ∨ (bA + size ≤ bB + 1 ∧ (bA + size = bB + 1 → cmpA bB = .gt))
+
+theorem bsLoop_pair (cmpA cmpB : Nat → Ordering)
+    (hgt : ∀ i, cmpB i = .gt → cmpA i = .gt) :
+    ∀ fuel size bA bB, 1 ≤ size → size ≤ fuel + 1 → PairInv cmpA size bA bB →
+      PairInv cmpA 1 (bsLoop cmpA fuel size bA) (bsLoop cmpB fuel size bB) := by
+  intro fuel
+  induction fuel with
+  | zero =>
+    intro size bA bB h1 h2 h
+    have : size = 1 := by omega
+    subst this
+    simpa only [bsLoop] using h
+  | succ f ih =>
+    intro size bA bB h1 h2 h
+    rw [bsLoop, bsLoop]
+    split
+    · next hs =>
+      dsimp only
+      apply ih _ _ _ (by omega) (by omega)
+      rcases h with h | ⟨h, hov⟩
+      · subst h
+        by_cases hA : cmpA (bA + size / 2) = .gt
+        · by_cases hB : cmpB (bA + size / 2) = .gt
+          · rw [if_pos hA, if_pos hB]; exact Or.inl rfl
+          · rw [if_pos hA, if_neg hB]
+            exact Or.inr ⟨by omega, fun _ => hA⟩
+        · have hB : ¬ cmpB (bA + size / 2) = .gt := fun hB => hA (hgt _ hB)
+          rw [if_neg hA, if_neg hB]; exact Or.inl rfl
+      · right
+        by_cases hA : cmpA (bA + size / 2) = .gt <;> by_cases hB : cmpB (bB + size / 2) = .gt
+        · rw [if_pos hA, if_pos hB]
+          exact ⟨by omega, fun he => by omega⟩
+        · rw [if_pos hA, if_neg hB]
+          exact ⟨by omega, fun he => by omega⟩
+        · rw [if_neg hA, if_pos hB]
+          exact ⟨by omega, fun he => hov (by omega)⟩
+        · rw [if_neg hA, if_neg hB]
+          exact ⟨by omega, fun he => by omega⟩
+    · have : size = 1 := by omega
+      subst this
+      exact h
+
+/-- Rust 1.95's branch-free `binary_search_by` is monotone in the key on **any** slice:
+if every element `Greater` than `b` is `Greater` than `a` and every element `Less` than
+`a` is `Less` than `b`, the index found for `a` is at most the one found for `b`. -/
+theorem bsearchBy_mono_any (len : Nat) (cmpA cmpB : Nat → Ordering)
+    (hgt : ∀ i, cmpB i = .gt → cmpA i = .gt) (hlt : ∀ i, cmpA i = .lt → cmpB i = .lt) :
+    (bsearchBy len cmpA).idx ≤ (bsearchBy len cmpB).idx := by
+  unfold bsearchBy
+  split
+  · exact Nat.le_refl _
+  · have h := bsLoop_pair cmpA cmpB hgt len len 0 0 (by omega) (by omega) (Or.inl rfl)
+    dsimp only
+    generalize bsLoop cmpA len len 0 = bA at h
+    generalize bsLoop cmpB len len 0 = bB at h
+    rcases h with h | ⟨h, hov⟩
+    · subst h
+      cases hA : cmpA bA with
+      | lt => rw [hlt _ hA]; exact Nat.le_refl _
+      | eq => cases cmpB bA <;> simp only [BRes.idx] <;> omega
+      | gt => cases cmpB bA <;> simp only [BRes.idx] <;> omega
+    · by_cases he : bA = bB
+      · have hA := hov (by omega)
+        subst he
+        rw [hA]
+        cases cmpB bA <;> simp only [BRes.idx] <;> omega
+      · cases cmpA bA <;> cases cmpB bB <;> simp only [BRes.idx] <;> omega
+
+theorem bsearch_idx_mono_any (s : List Nat) {a b : Nat} (hab : a ≤ b) :
+    (bsearch s a).idx ≤ (bsearch s b).idx := by
+  unfold bsearch
+  apply bsearchBy_mono_any
+  · intro i h
+    simp only [Nat.compare_eq_gt] at h ⊢
+    omega
+  · intro i h
+    simp only [Nat.compare_eq_lt] at h ⊢
+    omega
 
 end Coupe.Sfc
